@@ -2,7 +2,8 @@
 # runmutant.sh <patch> <ID> [<ID>...]: apply patch to /repo, run baseline tests + quick checks, revert.
 patch="$(readlink -f "$1")"; shift
 git -C /repo diff --quiet || { echo "/repo not clean"; exit 2; }
-trap 'git -C /repo checkout -- . ' EXIT INT TERM
+rm -rf /tmp/evidence.bak && cp -r /verif/evidence /tmp/evidence.bak
+trap 'git -C /repo checkout -- . ; rm -rf /verif/evidence; mv /tmp/evidence.bak /verif/evidence' EXIT INT TERM
 git -C /repo apply "$patch" || { echo "patch does not apply"; exit 2; }
 if [ -z "$SKIP_TESTS" ]; then
   (cd /repo && cargo test --offline 2>&1 | grep -E "^test result" | head -1)
